@@ -72,6 +72,11 @@ func NewSimpleURL(u *url.URL) (SimpleURL, error) {
 				}
 			}
 		case name == "filter":
+			if values.Get(name) == "" {
+				// An empty value means that there is no filter.
+				break
+			}
+
 			var err error
 			if values.Get(name)[0] != '{' {
 				// It should be a label
